@@ -66,6 +66,8 @@ fn main() {
             if unit == "eval" {
                 let (bad, msg) = match v["function"].as_str().unwrap_or("") {
                     "cost_table" => eval::replay_cost(&v["input"]),
+                    "datalayer_ground" => eval::replay_datalayer(&v["input"]),
+                    "bls_cache_ground" => eval::replay_bls(&v["input"]),
                     "tree_hash_precomputed" => eval::replay_precomputed(&v["input"]),
                     _ => (false, "unknown eval replay".to_string()),
                 };
